@@ -16,6 +16,8 @@ CLAIMED = {
              note="in the graph/mdachain harnesses each path is concrete once the edge flags are chosen: the solver contributes exhaustive pruned enumeration and counterexamples, not intra-path reasoning; one coupling output per discipline, sizes 1; order of members inside a group not asserted."),
  "C02": dict(text="(a) numeric: for all symbolic bounds (l<u, l==u, infinite, one-sided), integer variables with concrete bounds, all vectors and 2xn batches (n<=3): normalize/unnormalize/gradient scalings/transform are the stated affine maps and mutually inverse, membership raises exactly outside [l-tol,u+tol] or on non-integral integers, projection is the clip; (b) histories: every sequence of <=2-3 (thorough 3-4) public edit operations and cache-filling queries on small spaces keeps all views (names, sizes, indices, bounds, current value, normalization of a symbolic vector) equal to an independent reference model.", ref="DESIGN.md 3/C02",
              note="bounds injected into Variable.__dict__ (numeric part); history part uses concrete dyadic bounds through the public API, each path is concrete apart from the symbolic probe vector; out= buffers, out-of-bounds normalization on l==u components and position of a renamed variable not asserted."),
+ "C09": dict(text="For 25 composition templates (chains, diamonds, fan-in/out, pass-through and overwritten variables, parallel, additive, nested, MDAChain with chain_linearize on acyclic systems; <=4 leaf disciplines, sizes 1-2) with fully uninterpreted disciplines and partials: for all input points and all requested input/output subsets (solver-chosen) and a second request on the same object, every returned block equals the forward-accumulated chain-rule term, zero blocks have the right shape, earlier blocks are unchanged by a later request and equal those of a fresh process. Two recorded defects of MDOChain on read-write/overwritten variables are reported as KNOWN-FINDING.", ref="DESIGN.md 3/C09",
+             note="discipline.csr_array stubbed to dense object zeros; MDOParallelChain with n_processes=1; sparse/operator partials, MDAChain through JacobianAssembly (scipy.sparse) outside."),
 }
 NA = {
  "C07": "JacobianAssembly/CoupledSystem go through scipy.sparse, SuperLU and Krylov solvers: no symbolic value survives csr_matrix(); encoding would verify a model of scipy, not the code (DESIGN.md C07).",
